@@ -248,6 +248,57 @@ pub fn long(ctx: &mut Ctx) {
     }
 }
 
+/// every sequence of up to four neighbourhood queries over a menu of ten (grids that share an edge length,
+/// grids that differ in it, one-dimensional and three-dimensional ones) on ONE thread: every answer equals the
+/// brute-force ball, whatever was asked before
+pub fn history(ctx: &mut Ctx) {
+    let menu: Vec<(usize, usize, usize, f32)> = vec![(36, 1, 14, 1.0), (36, 2, 14, 1.0), (27, 3, 13, 1.5), (16, 2, 0, 1.0), (5, 2, 4, 1.0), (7, 2, 3, 1.0), (9, 2, 8, 2.0), (8, 3, 7, 1.0), (100, 2, 55, 1.5), (10, 1, 9, 3.0)];
+    let want: Vec<Option<Vec<i32>>> = menu.iter().map(|(n, d, c, r)| neighbors_ref(*n, *d, *c, *r)).collect();
+    let k = menu.len();
+    let maxlen = if ctx.tier_thorough { 5 } else { 4 };
+    for len in 1..=maxlen {
+        for code in 0..k.pow(len as u32) {
+            let id = match ctx.take() {
+                Some(id) => id,
+                None => continue,
+            };
+            ctx.transitions += len as u64;
+            ctx.states += 1;
+            let mut c = code;
+            let seq: Vec<usize> = (0..len)
+                .map(|_| {
+                    let x = c % k;
+                    c /= k;
+                    x
+                })
+                .collect();
+            let mut problem = None;
+            for (pos, q) in seq.iter().enumerate() {
+                let (n, d, ce, r) = menu[*q];
+                match real_neighbors(n, d, ce, r) {
+                    Err(p) => {
+                        problem = Some((panic_class(&p), p));
+                        break;
+                    }
+                    Ok(got) => {
+                        if got != want[*q] {
+                            problem = Some(("depends-on-earlier-queries".to_string(), format!("query {} of the sequence {:?}: find_neighbors{:?} = {:?}, expected {:?}", pos + 1, seq.iter().map(|i| menu[*i]).collect::<Vec<_>>(), menu[*q], got, want[*q])));
+                            break;
+                        }
+                    }
+                }
+            }
+            let okey = format!("{:?}|{}", seq, problem.is_some());
+            let v = match problem {
+                None => Verdict::Pass,
+                Some((c, d)) => Verdict::fail("Topology::find_neighbors", &c, d),
+            };
+            ctx.nontrivial_mark(&okey);
+            ctx.record(id, &okey, v, || format!("query sequence {:?}", seq));
+        }
+    }
+}
+
 pub fn instr(ctx: &mut Ctx) {
     let mut real = Real::new();
     let sizes = [-1, 0, 1, 8, 9, 27, 125];
@@ -303,6 +354,7 @@ pub fn run(ctx: &mut Ctx) {
         "geometry" => geometry(ctx),
         "instr" => instr(ctx),
         "long" => long(ctx),
+        "history" => history(ctx),
         f => panic!("unknown family {}", f),
     }
 }
